@@ -43,6 +43,13 @@ def gen_config(rng, want_cycle):
                 u["uses"] = [x + "/" if x == bare and rng.chance(1, 2) else x for x in u["uses"]]
     if not want_cycle:
         return ts if is_acyclic(ts) else rungen.gen_acyclic_targets(rng, 2, 6)
+    if rng.chance(1, 4):
+        # the only cycle runs through targets with long multi-byte names (the cycle error names one)
+        a = "д" * rng.range(40, 70) + "/" + "ж" * rng.range(40, 70)
+        b = "д" * rng.range(40, 70) + "б/" + "я" * rng.range(30, 60)
+        ts.insert(rng.below(len(ts) + 1), {"path": a, "uses": [b if rng.chance(1, 2) else b + "/src/x.rs"]})
+        ts.insert(rng.below(len(ts) + 1), {"path": b, "uses": [a]})
+        return ts
     paths = [t["path"] for t in ts]
     for _ in range(40):
         kind = rng.below(3)
@@ -254,7 +261,10 @@ class Walk:
         repo = scen.Repo(self.ts, git=True)
         try:
             for t in self.ts:
-                repo.install(strip(t["path"]), "build")
+                # not every target defines the command: an undefined member (or a whole undefined
+                # layer) is still part of the groups `run` reports
+                if self.rng.chance(3, 4):
+                    repo.install(strip(t["path"]), "build")
             repo.commit_all()
             n = len(self.ts)
             self.steps.append("(no checkpoint)")
